@@ -75,7 +75,7 @@ def single_faults(events: list[dict], rng: Rng, all_errnos: bool) -> list[dict]:
     return plans
 
 
-def fsize_limits(ref: dict, layout: list[tuple[int, int]], rng: Rng, tier: dict) -> list[int]:
+def fsize_limits(ref: dict, layout: list[tuple[int, int]], rng: Rng, tier: dict, model_bytes: int = 0) -> list[int]:
     """Disk-capacity values to try: tensor boundaries +-1, 4 KiB boundaries +-1, file ends, seeded sample."""
     sizes = [s for n, s in ref.get("sizes", {}).items() if not n.startswith(("src", "sub/", "second/", "decoy/"))]
     if not sizes:
@@ -98,7 +98,14 @@ def fsize_limits(ref: dict, layout: list[tuple[int, int]], rng: Rng, tier: dict)
             b += BLK * max(1, s // (BLK * 8))
     for _ in range(tier["fsize_samples"]):
         cand.add(rng.below(top))
-    return sorted(b for b in cand if 0 <= b < top)
+    out = sorted(b for b in cand if 0 <= b < top)
+    # every capacity value is one more simulated save of the whole model: for models with large tensors (each save costs
+    # 0.2-0.5 s) the every-byte enumeration of a small data file is thinned to an even sample, or one case alone takes an hour
+    cap = 512 if model_bytes > 200_000 else 6000
+    if len(out) > cap:
+        step = -(-len(out) // cap)
+        out = sorted(set(out[::step]) | {b for b in out if b <= 8 or b >= top - 8})
+    return out
 
 
 def data_layout(real_events: list[dict], recipe: dict) -> list[tuple[int, int]]:
@@ -269,7 +276,11 @@ def explore(recipe: dict, frng: Rng, tier: dict, root: str, idx: int, only_kinds
     if recipe.get("uninit") and not ref["events"]:
         lay = []  # refused before the first fs event: there is no fault point to enumerate
         ref = dict(ref, sizes={})
-    for b in fsize_limits(ref, lay, frng.sub("fsize"), tier):
+    from dsim.c20 import models as _models
+
+    model_bytes = sum(_models._itemsize_bits(e["dtype"]) * max(1, __import__("math").prod(e["shape"])) // 8
+                      for e in recipe["inits"] if e["dtype"] != "STRING")
+    for b in fsize_limits(ref, lay, frng.sub("fsize"), tier, model_bytes):
         plans.append({"fsize": b})
     if only_kinds is not None:
         plans = [p for p in plans if _plan_kind(p) in only_kinds]
